@@ -55,7 +55,8 @@ def pl(t, prec=999):
         s = "%s%s%s" % (pl(args[0], lp), sep, pl(args[1], rp))
         return "(%s)" % s if p > prec else s
     if len(args) == 1 and f == "\\+":
-        return "\\+ (%s)" % pl(args[0], 1200)
+        # as an operand scryer's reader needs the parentheses (G = \\+ b is rejected)
+        return ("(\\+ (%s))" if prec < 999 else "\\+ (%s)") % pl(args[0], 1200)
     if len(args) == 1 and f == "-":
         return "-(%s)" % pl(args[0], 999)
     return "%s(%s)" % (terms.quote_atom(f), ",".join(pl(x, 999) for x in args))
@@ -202,6 +203,29 @@ def coq_eval_codes(prop, imports, defs, exprs, chunk=150, timeout=600, tag="case
 
 # ------------------------------------------------------------------ implementation runner
 LOG_DEFS = ":- dynamic(logged/1).\nlog(T) :- assertz(logged(T)).\n"
+# answers are passed through an encoder so that improper lists and cyclic terms never reach vrun's term conversion
+ENC_DEFS = """vsld_enc0(T, E) :- ( acyclic_term(T) -> vsld_enc(T, E) ; E = '$cyclic' ).
+vsld_enc(T, E) :- var(T), !, E = T.
+vsld_enc([H|T], E) :- !, E = '$cons'(EH, ET), vsld_enc(H, EH), vsld_enc(T, ET).
+vsld_enc(T, E) :- compound(T), !, T =.. [F|As], vsld_encl(As, Es), E =.. [F|Es].
+vsld_enc(T, T).
+vsld_encl([], []).
+vsld_encl([A|As], [E|Es]) :- vsld_enc(A, E), vsld_encl(As, Es).
+"""
+
+
+def decode(t):
+    if t[0] == "cmp":
+        if t[1] == "$cons" and len(t[2]) == 2:
+            return ("cmp", ".", [decode(t[2][0]), decode(t[2][1])])
+        return ("cmp", t[1], [decode(x) for x in t[2]])
+    return t
+
+
+def has_cyclic_marker(t):
+    if t[0] == "atom": return t[1] == "$cyclic"
+    if t[0] == "cmp": return any(has_cyclic_marker(x) for x in t[2])
+    return False
 HEADER = ":- use_module(library(lists)).\n:- use_module(library(iso_ext)).\n"
 
 
@@ -216,9 +240,12 @@ def observe(res):
         if isinstance(a, dict) and "b" in a:
             if "Ans__" not in a["b"]:
                 return ("drop", "no Ans__ binding: %r" % (a,))
-            answers.append(normt(terms.from_json(a["b"]["Ans__"])))
+            t = terms.from_json(a["b"]["Ans__"])
+            if has_cyclic_marker(t):
+                return ("drop", "cyclic")
+            answers.append(normt(decode(t)))
         elif isinstance(a, dict) and ("err" in a or "exc" in a):
-            ball = normt(terms.from_json(a.get("err", a.get("exc"))))
+            ball = normt(decode(terms.from_json(a.get("err", a.get("exc")))))
         elif isinstance(a, dict) and "panic" in a:
             return ("panic", a["panic"])
         else:
@@ -231,57 +258,84 @@ def is_timeout_ball(ball):
 
 
 def query_text(q, tmpl):
-    return "Ans__ = %s, %s." % (pl(tmpl, 999), pl(q, 999))
+    """for reports only: the query as one would type it"""
+    return "%s.   %% answer template %s" % (pl(q, 999), pl(tmpl, 999))
 
 
-def run_impl(prop, jobs_in, tag="impl", max_answers=60, timeout_ms=4000, fresh_every=20):
+RUN_DEFS = "vsld_call(F, A) :- call(F, G, T), call(G), vsld_enc0(T, A).\n"
+PATHS = ("clause", "call")
+
+
+def run_impl(prop, jobs_in, tag="impl", max_answers=60, timeout_ms=4000, fresh_every=20, paths=PATHS):
     """jobs_in: list of {"id", "text": consult text, "queries": [(q, tmpl)], "log": bool}.
-    Returns {id: [obs per query]} with obs = ("ok", answers, ball, log) | ("drop", why) | ("panic", msg)."""
+    Every query is run through (path "clause") a compiled wrapper clause  vq_ID_I(A) :- Q, enc(Tmpl, A)  and (path "call")
+    call/1 of the goal stored in a fact; no query variable reaches the top level (cyclic terms / improper lists would
+    crash vrun's term conversion).  Returns {id: [ {path: obs} per query ]} with
+    obs = ("ok", answers, ball, log) | ("drop", why) | ("panic", msg)."""
     jobs = []
     for n, j in enumerate(jobs_in):
-        qs = []
-        for (q, tmpl) in j["queries"]:
-            if j.get("log"):
-                qs.append("retractall(logged(_)).")
-            qs.append(query_text(q, tmpl))
-            if j.get("log"):
-                qs.append("findall(T__, logged(T__), Ans__).")
-        jobs.append({"id": j["id"], "consult": j["text"], "queries": qs, "max_answers": max_answers + 1,
+        qs = ["vsentinel_%s, vsld_enc0(ok, Ans__)." % j["id"]]
+        extra = []
+        for i, (q, tmpl) in enumerate(j["queries"]):
+            for path in paths:
+                if j.get("log"):
+                    qs.append("retractall(logged(_)), vsld_enc0(ok, Ans__).")
+                if path == "clause":
+                    extra.append((C("vq_%s_%d" % (j["id"], i), V("A__")), conj([q, C("vsld_enc0", tmpl, V("A__"))])))
+                    qs.append("vq_%s_%d(Ans__)." % (j["id"], i))
+                else:
+                    extra.append((C("vg_%s_%d" % (j["id"], i), q, tmpl), TRUE))
+                    qs.append("vsld_call(vg_%s_%d, Ans__)." % (j["id"], i))
+                if j.get("log"):
+                    qs.append("findall(T__, logged(T__), L__), vsld_enc0(L__, Ans__).")
+        text = ENC_DEFS + RUN_DEFS + j["text"] + program_text(extra) + "vsentinel_%s.\n" % j["id"]
+        jobs.append({"id": j["id"], "consult": text, "queries": qs, "max_answers": max_answers + 1,
                      "timeout_ms": timeout_ms, "fresh": n % fresh_every == 0 or bool(j.get("fresh"))})
     t0 = time.time()
     res = core.vrun_query(prop, jobs, tag=tag)
     core.log("  [sld] impl: %d jobs in %.1fs" % (len(jobs), time.time() - t0))
     out = {}
+    step = 3 if False else 1
     for j in jobs_in:
         r = res.get(j["id"])
-        obs = []
+        nq = len(j["queries"])
         if r is None or "results" not in r or not isinstance(r["results"], list):
-            out[j["id"]] = [("drop", "no result: %s" % json.dumps(r)[:300])] * len(j["queries"])
+            out[j["id"]] = [{p: ("drop", "no result: %s" % json.dumps(r)[:300]) for p in paths} for _ in range(nq)]
             continue
-        rs = r["results"]
+        sent = observe(r["results"][0]) if r["results"] else ("drop", "no sentinel")
+        if sent[0] != "ok" or sent[1] != [A("ok")] or sent[2] is not None:
+            # the program text raised an error while loading (the machine is unusable afterwards): not a run of the program
+            out[j["id"]] = [{p: ("drop", "load error") for p in paths} for _ in range(nq)]
+            continue
+        rs = r["results"][1:]
         step = 3 if j.get("log") else 1
-        for i in range(len(j["queries"])):
-            base = i * step + (1 if j.get("log") else 0)
-            if base >= len(rs):
-                obs.append(("drop", "missing")); continue
-            o = observe(rs[base])
-            if o[0] == "ok":
-                if len(o[1]) > max_answers:
-                    o = ("drop", "more")
-                elif is_timeout_ball(o[2]):
-                    o = ("drop", "timeout")
-            if o[0] == "ok":
-                log = []
-                if j.get("log"):
-                    lo = observe(rs[base + 1]) if base + 1 < len(rs) else ("drop", "missing log")
-                    if lo[0] != "ok" or len(lo[1]) != 1:
-                        obs.append(("drop", "log query: %r" % (lo,))); continue
-                    items, tail = terms.list_view(lo[1][0])
-                    # the log list was normalised as a whole: re-normalise each entry
-                    log = [normt(x) for x in items]
-                o = ("ok", o[1], o[2], log)
-            obs.append(o)
-        out[j["id"]] = obs
+        per = []
+        pos = 0
+        for i in range(nq):
+            d = {}
+            for path in paths:
+                base = pos + (1 if j.get("log") else 0)
+                pos += step
+                if base >= len(rs):
+                    d[path] = ("drop", "missing"); continue
+                o = observe(rs[base])
+                if o[0] == "ok":
+                    if len(o[1]) > max_answers:
+                        o = ("drop", "more")
+                    elif is_timeout_ball(o[2]):
+                        o = ("drop", "timeout")
+                if o[0] == "ok":
+                    log = []
+                    if j.get("log"):
+                        lo = observe(rs[base + 1]) if base + 1 < len(rs) else ("drop", "missing log")
+                        if lo[0] != "ok" or len(lo[1]) != 1:
+                            d[path] = ("drop", "log query: %r" % (lo,)); continue
+                        items, tail = terms.list_view(lo[1][0])
+                        log = [normt(x) for x in items]
+                    o = ("ok", o[1], o[2], log)
+                d[path] = o
+            per.append(d)
+        out[j["id"]] = per
     return out
 
 
